@@ -1203,6 +1203,84 @@ def gen_merge_correspond(ctx, n_cases):
         if out.split() != impl.split():
             ctx.disagree("SkaModel.Gen.WrapperGen (translated from the current source) vs IndexClassifierWrapper.partial_fit",
                          dict(case, line=line), out, impl)
+    gen_store_correspond(ctx, n_cases)
+
+
+def gen_store_correspond(ctx, n_cases):
+    """The attribute-storing tail of `fit` translated from the current source, executed on the attributes the real object held
+    before a real `fit` call and on what the recording classifier was fitted on; compared with the attributes it holds after."""
+    from skactiveml.pool.utils import IndexClassifierWrapper
+
+    rng = ctx.rng
+    ATTRS = ["idx_", "y_", "sample_weight_", "base_idx_", "base_y_", "base_sample_weight_"]
+
+    def tv(v):
+        return str(int(v)) if v == v else "nan"
+
+    def lst(xs):
+        return f"{len(xs)} " + " ".join(tv(x) for x in xs) if len(xs) else "0"
+
+    def enc(w, a):
+        if a not in w.__dict__:
+            return "0"
+        v = w.__dict__[a]
+        if a.endswith("sample_weight_"):
+            return "1 0" if v is None else "1 1 " + lst(v)
+        return "1 " + lst(v)
+
+    def show(w):
+        def sh(a):
+            if a not in w.__dict__:
+                return "absent"
+            v = w.__dict__[a]
+            return "None" if v is None else "[" + " ".join(tv(x) for x in v) + "]"
+
+        return (f"clf {int('clf_' in w.__dict__)} | {sh('idx_')} | {sh('y_')} | {sh('sample_weight_')} | "
+                f"base {int('base_clf_' in w.__dict__)} | {sh('base_idx_')} | {sh('base_y_')} | {sh('base_sample_weight_')}")
+
+    lines, expect = [], []
+    for _ in range(n_cases):
+        n = rng.randint(3, 8)
+        native = rng.random() < 0.4
+        X = np.arange(2 * n, dtype=float).reshape(n, 2)
+        y_full = np.array([float(rng.randrange(3)) for _ in range(n)])
+        sw_full = np.array([float(rng.randint(1, 4)) for _ in range(n)]) if rng.random() < 0.5 else None
+        w = IndexClassifierWrapper(make_clf("spypf" if native else "spy"), X, y_full, sample_weight=sw_full, set_base_clf=False,
+                                   ignore_partial_fit=False, enforce_unique_samples=False, use_speed_up=False, missing_label=NAN)
+
+        def args():
+            k = rng.randint(1, n)
+            idx = [rng.randrange(n) for _ in range(k)]
+            y = None if rng.random() < 0.5 else [float(rng.randrange(3)) for _ in idx]
+            sw = None if rng.random() < 0.5 else [float(rng.randint(1, 4)) for _ in idx]
+            return idx, y, sw
+
+        try:
+            with warnings.catch_warnings():
+                warnings.simplefilter("ignore")
+                for _k in range(rng.choice([0, 1, 1, 2])):     # earlier calls: the attributes the tail starts from
+                    i0, y0, s0 = args()
+                    w.fit(i0, y=y0, sample_weight=s0, set_base_clf=rng.random() < 0.4)
+                pre = [enc(w, a) for a in ATTRS]
+                pre_base_clf = int("base_clf_" in w.__dict__)
+                idx, y, sw = args()
+                sb = rng.random() < 0.5
+                w.fit(idx, y=y, sample_weight=sw, set_base_clf=sb)
+        except Exception:  # noqa: BLE001
+            ctx.count("generated_store_setup_raised")
+            continue
+        rec = w.clf_.hist_[0]      # what the wrapped classifier was fitted on: (kind, X, y, sample_weight)
+        yy, ww = list(rec[2]), (None if rec[3] is None else list(rec[3]))
+        ctx.count("generated_store_cases")
+        ctx.count(f"generated_store_native{int(native)}_setbase{int(sb)}")
+        lines.append(f"g_iw_store {int(native)} {int(sb)} {pre[0]} {pre[1]} {pre[2]} {pre_base_clf} {pre[3]} {pre[4]} {pre[5]} "
+                     f"{lst(idx)} {lst(yy)} {'0' if ww is None else '1 ' + lst(ww)}")
+        expect.append((show(w), dict(native=native, set_base_clf=sb, idx=idx)))
+    outs = vlib.run_driver(lines, exe=vlib.WRAPGENDRIVER)
+    for line, out, (impl, case) in zip(lines, outs, expect):
+        if out.split() != impl.split():
+            ctx.disagree("SkaModel.Gen.WrapperGen fit.store (translated from the current source) vs IndexClassifierWrapper.fit",
+                         dict(case, line=line), out, impl)
 
 
 def correspond(ctx):
